@@ -56,12 +56,121 @@ def init_pool(model):
     _G["model"] = model
 
 
+def visit_rules(ctx, mod, short):
+    """how genhkl_base consults sysabs and which visited points it never tests.
+    -> {'crystal_system': ('param'|'literal', value), 'cell_choice': (...)}"""
+    fn = mod.func("genhkl_base")
+    where = core.loc(mod, fn)
+    callee = mod.func("sysabs")
+    cparams = [a.arg for a in callee.args.args]
+    cdefaults = dict(zip(cparams[len(cparams) - len(callee.args.defaults):], [tables.literal(d) for d in callee.args.defaults]))
+    params = {a.arg for a in fn.args.args}
+    calls = [n_ for n_ in ast.walk(fn) if isinstance(n_, ast.Call) and getattr(n_.func, "id", "") == "sysabs"]
+    if not calls:
+        raise AnalysisError("%s.genhkl_base: no call of sysabs" % short)
+    # the call whose result decides acceptance: `if sysabs(...) == 0` or `x = sysabs(...)` ... `if x == 0`
+    deciding = None
+    guard_if = None
+    for n_ in ast.walk(fn):
+        if isinstance(n_, ast.If) and isinstance(n_.test, ast.Compare) and len(n_.test.ops) == 1 and isinstance(n_.test.ops[0], ast.Eq) \
+                and isinstance(n_.test.comparators[0], ast.Constant) and n_.test.comparators[0].value == 0:
+            l_ = n_.test.left
+            if isinstance(l_, ast.Call) and l_ in calls:
+                deciding, guard_if = l_, n_
+            elif isinstance(l_, ast.Name):
+                for c_ in calls:
+                    for a_ in ast.walk(fn):
+                        if isinstance(a_, ast.Assign) and a_.value is c_ and isinstance(a_.targets[0], ast.Name) and a_.targets[0].id == l_.id:
+                            deciding, guard_if = c_, n_
+    if deciding is None:
+        raise AnalysisError("%s.genhkl_base: the test `sysabs(...) == 0` that accepts a reflection was not found" % short)
+    amap = dict(zip(cparams, deciding.args))
+    for k in deciding.keywords:
+        amap[k.arg] = k.value
+    out = {}
+    for p_ in ("crystal_system", "cell_choice"):
+        if p_ not in amap:
+            out[p_] = ("literal", cdefaults.get(p_))
+        elif isinstance(amap[p_], ast.Name) and amap[p_].id in params:
+            out[p_] = ("param", amap[p_].id)
+        elif isinstance(amap[p_], ast.Constant):
+            out[p_] = ("literal", amap[p_].value)
+        else:
+            raise AnalysisError("%s.genhkl_base: argument `%s` of sysabs is neither a parameter nor a literal" % (short, core.unparse(amap[p_])))
+    ok_args = all(out[p_] == ("param", p_) for p_ in out)
+    ok_sys = isinstance(amap.get(cparams[1]), ast.Name) and amap[cparams[1]].id == "sysconditions"
+    # the vector tested is the vector appended
+    appended = [b_["M_X"] for st_ in ast.walk(guard_if) if isinstance(st_, ast.Assign)
+                for b_ in [core.match_stmt("M_H = NP.concatenate((M_H, [M_X]))", st_, {}, mod.np_alias)] if b_]
+    tested = amap.get(cparams[0])
+    ok_vec = isinstance(tested, ast.Name) and appended and tested.id == appended[0]
+    ctx.check(ok_sys and ok_vec, "C05:visit:%s.sysabs-vector" % short,
+              "the reflection-condition test is not sysabs(<the row that is appended>, sysconditions, ...)", where)
+    if not ok_args:
+        ctx.note("%s.genhkl_base consults sysabs with crystal_system=%s, cell_choice=%s (the table analysis uses exactly these)"
+                 % (short, out["crystal_system"], out["cell_choice"]))
+    # origin skip: `if c != 1` with c a visit counter initialised once, outside every loop
+    skip = None
+    parents = {}
+    for n_ in ast.walk(fn):
+        for ch in ast.iter_child_nodes(n_):
+            parents[ch] = n_
+    p_ = guard_if
+    while p_ in parents:
+        p_ = parents[p_]
+        if isinstance(p_, ast.If) and isinstance(p_.test, ast.Compare) and isinstance(p_.test.left, ast.Name) \
+                and isinstance(p_.test.ops[0], ast.NotEq) and isinstance(p_.test.comparators[0], ast.Constant) and p_.test.comparators[0].value == 1:
+            skip = p_
+            break
+    if skip is None:
+        raise AnalysisError("%s.genhkl_base: the guard that leaves the first visited point (000) untested was not found" % short)
+    cv = skip.test.left.id
+    inits, incs, decs, others = [], [], [], []
+    for n_ in ast.walk(fn):
+        if isinstance(n_, (ast.Assign, ast.AugAssign)):
+            tg = n_.targets[0] if isinstance(n_, ast.Assign) else n_.target
+            if isinstance(tg, ast.Name) and tg.id == cv:
+                if core.match_stmt("%s = 0" % cv, n_):
+                    inits.append(n_)
+                elif core.match_stmt("%s = %s + 1" % (cv, cv), n_) or core.match_stmt("%s += 1" % cv, n_):
+                    incs.append(n_)
+                elif core.match_stmt("%s = %s - 1" % (cv, cv), n_) or core.match_stmt("%s -= 1" % cv, n_):
+                    decs.append(n_)
+                else:
+                    others.append(n_)
+    def in_loop(n_):
+        q = n_
+        while q in parents:
+            q = parents[q]
+            if isinstance(q, (ast.For, ast.While)):
+                return True
+        return False
+    def inside(n_, anc):
+        q = n_
+        while q in parents:
+            q = parents[q]
+            if q is anc:
+                return True
+        return False
+    blk = parents.get(skip)
+    sib = getattr(blk, "body", [])
+    prev_is_inc = skip in sib and sib.index(skip) > 0 and sib[sib.index(skip) - 1] in incs
+    ok_once = (len(inits) == 1 and not in_loop(inits[0]) and len(incs) == 1 and prev_is_inc
+               and all(inside(d_, skip) for d_ in decs) and not others)
+    ctx.check(ok_once, "C05:visit:%s.origin-only" % short,
+              "the counter `%s` that exempts the first visited point from the test is not initialised exactly once before the cone "
+              "loop / incremented once per visit: apexes of later cones (real reflections such as 1 2 0) are skipped too" % cv,
+              core.loc(mod, inits[0]) if inits else where, sample={"counter": cv, "initialised_in_loop": [in_loop(i_) for i_ in inits]})
+    return out
+
+
 def run(ctx):
     from xfabsa import numeric as _N
     _N.alias_rule(ctx, 'C05', ['xfab/tools.py', 'xfab/laue.py', 'xfab/sg.py'])
     ctx.rule("syscond", "slot model x syscond x permutation schedule == extinction by the tabulated operators, on every cone point in the box")
     ctx.rule("earlyexit", "cone apex/generators pairwise non-obtuse in every conforming reciprocal metric")
     ctx.rule("expand", "genhkl_all: Rots = rot[:nuniq] and negatives, dot(hkl_row, R), stl copied, unique() de-duplication")
+    ctx.rule("visit", "sysabs is consulted on the appended row with the group's own crystal_system / cell_choice; only the very first visited point (000) is exempt")
     ctx.rule("rsetting", "hexagonal table conjugated by the obverse transformation == rhombohedral table (7 R groups)")
     ctx.rule("model", "slot model, schedules and cone tables are extracted from both modules; analysed once when identical, else per module")
     Nbox = 8 if ctx.tier == "quick" else 24
@@ -76,12 +185,13 @@ def run(ctx):
         ops = H.extract_slot_model(rel)
         sched = H.extract_schedules(rel)
         seg = tables.extract_segm(rel)
-        models[short] = (ops, sched, seg)
+        models[short] = (ops, sched, seg, visit_rules(ctx, mod, short))
         ctx.floor("%s condition slots" % short, len({o[1] for o in ops}), 26)
         ctx.floor("%s cone tables" % short, len(seg), 14)
     def sched_key(a):
         return [(d, perms) for d, _t, perms in a]
     same_model = (models["tools"][0] == models["laue"][0] and sched_key(models["tools"][1]) == sched_key(models["laue"][1])
+                  and models["tools"][3] == models["laue"][3]
                   and [(t["guard"], t["table"]) for t in models["tools"][2]] == [(t["guard"], t["table"]) for t in models["laue"][2]])
     total_pts = 0
     jobs = []
@@ -89,9 +199,10 @@ def run(ctx):
     if same_model:
         ctx.note("slot model, schedules and cone tables of laue are identical to those of tools: the table verdicts hold for both")
     for which, relname, sfx in todo:
-        model_ops, schedules, segm = models[which]
+        model_ops, schedules, segm, visit = models[which]
         # in the second pass only what differs from tools is analysed again (same keys otherwise)
-        same_rules = which == "tools" or (model_ops == models["tools"][0] and sched_key(schedules) == sched_key(models["tools"][1]))
+        same_rules = which == "tools" or (model_ops == models["tools"][0] and sched_key(schedules) == sched_key(models["tools"][1])
+                                          and visit == models["tools"][3])
 
         def same_cones(laue_, cc_):
             if which == "tools":
@@ -115,7 +226,9 @@ def run(ctx):
                          "%s:%d" % (sgl.rel, s.lines.get("Laue", 0)))
                 continue
             by_key[s.key] = s
-            jobs.append((s.key, tuple(s.syscond), s.crystal_system, s.cell_choice, H.int_ops(s), hits[0]["table"], Nbox))
+            cs_eff = s.crystal_system if visit["crystal_system"][0] == "param" else visit["crystal_system"][1]
+            cc_eff = s.cell_choice if visit["cell_choice"][0] == "param" else visit["cell_choice"][1]
+            jobs.append((s.key, tuple(s.syscond), cs_eff, cc_eff, H.int_ops(s), hits[0]["table"], Nbox))
         nproc = min(16, os.cpu_count() or 1)
         with Pool(nproc, initializer=init_pool, initargs=((model_ops, schedules),)) as pool:
             results = pool.map(_setting_job, jobs, chunksize=4)
